@@ -413,8 +413,16 @@ fn parse_input_archive_config(
     ))
 }
 
-fn parse_hash_sum(hex_str: &str) -> Result<HashSum, std::num::ParseIntError> {
-    hex_str_to_vec(hex_str).map(HashSum::from)
+fn parse_hash_sum(hex_str: &str) -> Result<HashSum, String> {
+    let bytes = hex_str_to_vec(hex_str).map_err(|err| err.to_string())?;
+    // A longer value can't be a checksum; don't let HashSum cut it down to one.
+    if bytes.len() > HashSum::MAX_LEN {
+        return Err(format!(
+            "checksum is longer than {} bytes",
+            HashSum::MAX_LEN
+        ));
+    }
+    Ok(HashSum::from(bytes))
 }
 
 fn add_archive_input_http_args(cmd: Command) -> Command {
